@@ -354,3 +354,28 @@ pub fn dispatch() -> Value {
     json!({"violates": first_bad.is_some(), "input": {"service": "no authentication provider", "first_failing_case": first_bad},
            "expected": "signed requests of every kind are refused before the backend runs; the unsigned request is served", "observed": all, "replay_args": ["dispatch"]})
 }
+
+/// wire-stream <METHOD> <uri> <body> [name=value headers…]: the request body arrives as a STREAM of small frames (as from a
+/// transport), no authentication provider: the operation must reach its backend method exactly once and nothing may panic —
+/// operations whose decoder needs the whole body rely on the router's "needs full body" flag (C01/C02)
+pub fn wire_stream(a: &[String]) -> Value {
+    let rec = Recorder::default();
+    *rec.mode.lock().unwrap() = "ok_default".to_owned();
+    let log = rec.log.clone();
+    let svc = s3s::service::S3ServiceBuilder::new(rec).build();
+    let mut b = http::Request::builder().method(a[0].as_str()).uri(a[1].as_str());
+    for (n, v) in hdrs(&a[3..]) { b = b.header(n.as_str(), v.as_str()); }
+    let body = a[2].clone().into_bytes();
+    b = b.header("content-length", body.len().to_string());
+    let frames: Vec<Result<bytes::Bytes, std::io::Error>> = body.chunks(5).map(|c| Ok(bytes::Bytes::copy_from_slice(c))).collect();
+    let sbody = s3s::Body::from(s3s::dto::StreamingBlob::wrap(futures::stream::iter(frames)));
+    let req = b.body(sbody).unwrap();
+    let rt = tokio::runtime::Builder::new_current_thread().enable_all().build().unwrap();
+    let res = std::panic::catch_unwind(std::panic::AssertUnwindSafe(|| rt.block_on(async { svc.call(req).await.map(|r| r.status().as_u16()).map_err(|e| format!("{e:?}")) })));
+    let calls = log.lock().unwrap().clone();
+    let (status, problem) = match res { Ok(Ok(st)) => (st, None), Ok(Err(e)) => (0, Some(format!("transport error: {e}"))), Err(_) => (0, Some("PANIC inside S3Service::call".to_owned())) };
+    let ok = problem.is_none() && calls.iter().filter(|c| c.contains('@')).count() == 1;
+    let mut args = vec!["wire-stream".to_owned()]; args.extend(a.iter().cloned());
+    json!({"violates": !ok, "input": {"request": format!("{} {}", a[0], a[1]), "body": a[2], "framing": "5-byte frames, streaming body"},
+           "expected": "exactly one backend invocation, no panic", "observed": {"status": status, "backend_calls": calls, "problem": problem}, "replay_args": args})
+}
